@@ -168,6 +168,74 @@ def run_wide_wf(ctx, stream, ncase, maxlen):
             "distribution": {"wide": dict(dist), "wide_exceptions": dict(errs)}}
 
 
+def run_wide_norm(ctx, stream, ncase, maxlen):
+    """search on the real code (C14): norm preserved by T / Phi / P / untruncated non-merging shifts, deviation from
+    equilibrium never increased by E / D / SPOILER, |F0| <= PD when T2 <= 2 T1"""
+    import warnings
+    import wide
+
+    E = epg()
+    from epgpy import utils as U
+
+    r = lib.rng(stream)
+    dist, errs, nontriv, checked, samples = collections.Counter(), collections.Counter(), set(), 0, []
+    ISO = {"T", "Phi", "P", "S", "Snd", "Sf", "G", "C", "WAIT"}
+    CONTRACT = {"E", "SPOILER", "D"}
+    for i in range(ncase):
+        batch = [None, (2,), (3, 1), (1, 2)][r.integers(4)] if r.random() < 0.45 else None
+        mode = ["1d", "nd", "float", "grad", "mixed"][r.integers(5)]
+        case = wide.gen_wide(r, int(r.integers(2, maxlen + 1)), mode=mode, batch=batch, lossless=True,
+                             allow=["T", "E", "S", "Phi", "P", "SPOILER", "WAIT", "D"])
+        if i < 2:
+            samples.append(case)
+        dist["mode:" + case["mode"]] += 1
+        try:
+            with warnings.catch_warnings():
+                warnings.simplefilter("ignore")
+                sm = E.StateMatrix(**case["options"])
+                pd = 1.0
+                for j, o in enumerate(case["program"]):
+                    before = np.array(sm.norm, dtype=float)
+                    dev_before = np.asarray(U.get_norm(np.asarray(sm.states) - np.asarray(sm.equilibrium)))
+                    op = wide.build_op(o, E)
+                    sm = op(sm, inplace=True)
+                    after = np.array(sm.norm, dtype=float)
+                    dev_after = np.asarray(U.get_norm(np.asarray(sm.states) - np.asarray(sm.equilibrium)))
+                    dist[o["op"]] += 1
+                    checked += 1
+                    bad = None
+                    if o["op"] in ISO:
+                        b, a = np.broadcast_arrays(before, after)
+                        if not np.allclose(a, b, rtol=1e-9, atol=1e-12):
+                            bad = ("norm changed by a lossless operator", float(np.max(np.abs(a - b))))
+                    elif o["op"] in CONTRACT:
+                        b, a = np.broadcast_arrays(dev_before, dev_after)
+                        if np.any(a > b * (1 + 1e-9) + 1e-12):
+                            bad = ("deviation from equilibrium increased by a dissipative operator", float(np.max(a - b)))
+                    f0 = np.abs(np.asarray(sm.F0))
+                    if bad is None and np.any(f0 > pd * (1 + 1e-9) + 1e-12):
+                        bad = ("|F0| above the proton density", float(np.max(f0)))
+                    if bad:
+                        ctx.violations.append({"kind": "wide-norm", "what": bad, "op_index": j, "op": o,
+                                               "input": dict(case, program=case["program"][: j + 1])})
+                        break
+            if len({o["op"] for o in case["program"]}) >= 2:
+                nontriv.add(case_hash(case))
+        except Exception as exc:
+            errs[type(exc).__name__] += 1
+    return {"evaluations": checked, "distinct_nontrivial": len(nontriv), "samples": samples,
+            "distribution": {"norm_search": dict(dist), "norm_search_exceptions": dict(errs)}}
+
+
+def run_C14(ctx, proof_ok):
+    a = run_core(ctx, 14, budget(ctx.tier, 200, 3000), maxlen=budget(ctx.tier, 30, 60), with_bloch=False)
+    b = run_wide_norm(ctx, 114, budget(ctx.tier, 500, 15000), maxlen=budget(ctx.tier, 14, 30))
+    return merge_results(a, b, a["rule"] + " || norm search on the real code: random programs of T/Phi/P/E/D/SPOILER/shifts in all "
+                         "back-ends (1-D, n-D integer incl. batched vectors, float gridded, G, C), no pruning option, caps never "
+                         "exceeded; sm.norm compared before/after each lossless operator per batch element, deviation norm "
+                         "non-increasing for E/D/SPOILER, |F0| <= PD throughout (T2 <= 2 T1 in the generator)")
+
+
 def merge_results(a, b, rule):
     out = dict(a)
     out["evaluations"] = a["evaluations"] + b["evaluations"]
@@ -442,6 +510,17 @@ PROPS["C11"] = {
     "theorems_hint": ["expression_derive_exact", "subst_eval", "virtual_table_wellbound", "mathTable_ok"],
     "partial": ["`sequence_eq_concrete` (Sequence = hand-built concrete list) and the chain rule through VirtualOperator.build are "
                 "exercised by the search, not proved; arrays as constants are evaluated element-wise by numpy (modelled as scalars)"],
+}
+
+PROPS["C14"] = {
+    "lean_modules": ["EpgVerif.Props.C14"],
+    "tie": TIE_OP,
+    "audit": "EpgVerif/Audit/C14.lean",
+    "run": run_C14,
+    "replay": replay_core,
+    "partial": ["proved on the 1-D state model: T/Phi/P/S isometries, E and Spoiler contractions, symmetric norm = code norm for "
+                "well-formed states; `norm = RMS isochromat length` (Parseval), diffusion contraction and the |signal| <= PD bound "
+                "are covered by the search on the real code only"],
 }
 
 NOT_CLAIMED = {}
